@@ -1,6 +1,6 @@
 SPECIFICATION Spec
 CONSTANTS Emit = FALSE
- Bound = 2048
+ Bound = 1024
  Modes = {"fn","st"}
 INVARIANT NoViolation
 CHECK_DEADLOCK FALSE
